@@ -7,11 +7,14 @@ import (
 	"fmt"
 	"io"
 	"math/rand"
+	"net"
+	"net/http"
 	"os"
 	"path/filepath"
 	"strings"
 	"sync"
 	"sync/atomic"
+	"syscall"
 	"time"
 
 	"github.com/folbricht/desync"
@@ -444,6 +447,7 @@ func runC07(cfg Config) {
 			}
 		}
 	}
+	c07CLI(cfg, rep, rng, monitor)
 	rep.Write(cfg.Out)
 }
 
@@ -689,6 +693,7 @@ func runC06(cfg Config) {
 			}
 		}
 	}
+	c06CLI(cfg, rep, rng, monitor)
 	rep.Write(cfg.Out)
 }
 
@@ -698,4 +703,300 @@ func keys(m map[int]bool) []int {
 		k = append(k, x)
 	}
 	return k
+}
+
+// c07CLI: the real commands under SIGINT / SIGTERM.  The chunk store is an HTTP server in the harness that stops the
+// k-th request; the signal is sent while that request is held, then the request goes on.  Exit status 0 must come
+// with complete work (extract: the output is the blob; make / chop / cache: every chunk of the index is in the target
+// store and, for make, the index file describes the blob); an interrupted extract without --in-place leaves the
+// destination path as it was.
+func c07CLI(cfg Config, rep *Report, rng *rand.Rand, monitor func(what, caseLine string)) {
+	bin := desyncBin()
+	if bin == "" {
+		rep.Notes = append(rep.Notes, "desync binary not built: command-line signal runs skipped")
+		return
+	}
+	work := filepath.Join(cfg.Work, "cli07")
+	os.MkdirAll(work, 0755)
+	defer os.RemoveAll(work)
+	blob := randBytes(rng, 30000+rng.Intn(30000))
+	blobFile := filepath.Join(work, "blob")
+	os.WriteFile(blobFile, blob, 0644)
+	// chunk the blob once with the library; the objects of the source store
+	ch, _ := desync.NewChunker(bytes.NewReader(blob), 1024, 2048, 8192) // = make -m 1:2:8 (the option counts in KiB)
+	src := newMemStore()
+	idx, err := desync.ChunkStream(context.Background(), ch, src, 2)
+	if err != nil || len(idx.Chunks) < 4 {
+		return
+	}
+	idxFile := filepath.Join(work, "blob.caibx")
+	f, _ := os.Create(idxFile)
+	idx.WriteTo(f)
+	f.Close()
+	objects := map[string][]byte{}
+	for id, b := range src.chunks {
+		st, _ := desync.Compress(b)
+		objects["/"+id.String()[:4]+"/"+id.String()+".cacnk"] = st
+	}
+	g := newGateServer()
+	ln, err := net.Listen("tcp", "127.0.0.1:0")
+	if err != nil {
+		rep.Notes = append(rep.Notes, "cannot listen on localhost: "+err.Error())
+		return
+	}
+	hs := &http.Server{Handler: g}
+	go hs.Serve(ln)
+	defer hs.Close()
+	url := "http://" + ln.Addr().String() + "/"
+	total := len(idx.Chunks)
+	allStored := func() bool {
+		g.mu.Lock()
+		defer g.mu.Unlock()
+		for _, c := range idx.Chunks {
+			b, ok := g.objects["/"+c.ID.String()[:4]+"/"+c.ID.String()+".cacnk"]
+			if !ok {
+				return false
+			}
+			if d, err := desync.Decompress(nil, b); err != nil || desync.Digest.Sum(d) != c.ID {
+				return false
+			}
+		}
+		return true
+	}
+	ks := []int{0, 1, total / 2, total - 1, total, 2*total - 1}
+	if cfg.Tier == "thorough" {
+		ks = nil
+		for k := 0; k < 2*total+2; k++ {
+			ks = append(ks, k)
+		}
+	}
+	for _, sig := range []syscall.Signal{syscall.SIGINT, syscall.SIGTERM} {
+		for _, k := range ks {
+			for _, cmdName := range []string{"extract", "extract-inplace", "cache", "make", "chop"} {
+				n := []string{"1", "4"}[rng.Intn(2)]
+				g.mu.Lock()
+				g.objects = map[string][]byte{}
+				if cmdName == "extract" || cmdName == "extract-inplace" || cmdName == "cache" {
+					for p, b := range objects {
+						g.objects[p] = b
+					}
+				}
+				g.mu.Unlock()
+				g.reset(k, -1)
+				dst := filepath.Join(work, "out")
+				os.Remove(dst)
+				prior := []byte(nil)
+				if rng.Intn(2) == 0 && cmdName == "extract" {
+					prior = randBytes(rng, 1000)
+					os.WriteFile(dst, prior, 0644)
+				}
+				cacheDir := filepath.Join(work, "cache")
+				os.RemoveAll(cacheDir)
+				os.MkdirAll(cacheDir, 0755)
+				newIdx := filepath.Join(work, "new.caibx")
+				os.Remove(newIdx)
+				var args []string
+				switch cmdName {
+				case "extract":
+					args = []string{"extract", "-n", n, "-s", url, "--error-retry", "0", idxFile, dst}
+				case "extract-inplace":
+					args = []string{"extract", "-n", n, "-s", url, "--error-retry", "0", "--in-place", idxFile, dst}
+				case "cache":
+					args = []string{"cache", "-n", n, "-s", url, "-c", cacheDir, "--error-retry", "0", idxFile}
+				case "make":
+					args = []string{"make", "-n", n, "-s", url, "--error-retry", "0", "-m", "1:2:8", newIdx, blobFile}
+				case "chop":
+					args = []string{"chop", "-n", n, "-s", url, "--error-retry", "0", idxFile, blobFile}
+				}
+				exit, signalled, stderr := runSignalled(bin, g, sig, args...)
+				g.open()
+				caseLine := fmt.Sprintf("cli.signal cmd=%s n=%s signal=%v at-request=%d chunks=%d", cmdName, n, sig, k, total)
+				rep.Count(caseLine, signalled, "cli.signal:"+cmdName, fmt.Sprintf("cli-exit0:%v", exit == 0), fmt.Sprintf("cli-signalled:%v", signalled))
+				if exit == -1 {
+					monitor("the command did not exit within a minute after the signal: "+clip(stderr, 200), caseLine)
+					continue
+				}
+				switch cmdName {
+				case "extract", "extract-inplace":
+					out, rerr := os.ReadFile(dst)
+					if exit == 0 && !bytes.Equal(out, blob) {
+						monitor(fmt.Sprintf("desync extract exited with status 0 after %v but the output (%d bytes) is not the blob (%d bytes)", sig, len(out), len(blob)), caseLine)
+					}
+					if exit != 0 && cmdName == "extract" {
+						if prior == nil && rerr == nil {
+							monitor("an interrupted extract without --in-place left a file at a destination that did not exist", caseLine)
+						}
+						if prior != nil && !bytes.Equal(out, prior) {
+							monitor("an interrupted extract without --in-place changed the destination", caseLine)
+						}
+					}
+				case "cache":
+					if exit == 0 {
+						ls, _ := desync.NewLocalStore(cacheDir, desync.StoreOptions{})
+						for _, c := range idx.Chunks {
+							if _, err := ls.GetChunk(c.ID); err != nil {
+								monitor("desync cache exited with status 0 after "+sig.String()+" but a chunk of the index is not in the cache: "+err.Error(), caseLine)
+								break
+							}
+						}
+					}
+				case "make", "chop":
+					if exit == 0 && !allStored() {
+						monitor("desync "+cmdName+" exited with status 0 after "+sig.String()+" but a chunk of the index is not (valid) in the store", caseLine)
+					}
+					if cmdName == "make" && exit == 0 {
+						if fi, err := os.Open(newIdx); err != nil {
+							monitor("desync make exited with status 0 but wrote no index", caseLine)
+						} else {
+							ni, err := desync.IndexFromReader(fi)
+							fi.Close()
+							if err != nil || ni.Length() != int64(len(blob)) {
+								monitor("desync make exited with status 0 but the index it wrote does not describe its input", caseLine)
+							}
+						}
+					}
+				}
+			}
+		}
+	}
+}
+
+// c06CLI: the real make / chop / cache / tar -i against an HTTP store (a server in the harness) that answers 500 from
+// its k-th request on, for k spread over the whole run, with retries off: exit status 0 must come with every chunk of
+// the index valid in the store, and for make / tar -i with an index that describes the input
+func c06CLI(cfg Config, rep *Report, rng *rand.Rand, monitor func(what, caseLine string)) {
+	bin := desyncBin()
+	if bin == "" {
+		rep.Notes = append(rep.Notes, "desync binary not built: command-line bulk-write runs skipped")
+		return
+	}
+	work := filepath.Join(cfg.Work, "cli06")
+	os.MkdirAll(filepath.Join(work, "tree", "sub"), 0755)
+	defer os.RemoveAll(work)
+	blob := append(randBytes(rng, 20000+rng.Intn(20000)), make([]byte, 20000)...) // a zero run: duplicate chunks
+	blob = append(blob, blob[:9000]...)
+	blobFile := filepath.Join(work, "blob")
+	os.WriteFile(blobFile, blob, 0644)
+	for k := 0; k < 12; k++ {
+		os.WriteFile(filepath.Join(work, "tree", []string{"", "sub"}[k%2], fmt.Sprintf("f%02d", k)), randBytes(rng, 500+rng.Intn(4000)), 0644)
+	}
+	ch, _ := desync.NewChunker(bytes.NewReader(blob), 1024, 2048, 8192)
+	src := newMemStore()
+	idx, err := desync.ChunkStream(context.Background(), ch, src, 2)
+	if err != nil || len(idx.Chunks) < 4 {
+		return
+	}
+	idxFile := filepath.Join(work, "blob.caibx")
+	f, _ := os.Create(idxFile)
+	idx.WriteTo(f)
+	f.Close()
+	srcDir := filepath.Join(work, "src-store")
+	os.MkdirAll(srcDir, 0755)
+	ls, _ := desync.NewLocalStore(srcDir, desync.StoreOptions{})
+	for id, b := range src.chunks {
+		c, _ := desync.NewChunkWithID(id, b, false)
+		ls.StoreChunk(c)
+	}
+	g := newGateServer()
+	ln, err := net.Listen("tcp", "127.0.0.1:0")
+	if err != nil {
+		return
+	}
+	hs := &http.Server{Handler: g}
+	go hs.Serve(ln)
+	defer hs.Close()
+	url := "http://" + ln.Addr().String() + "/"
+	valid := func(chunks []desync.IndexChunk) string {
+		g.mu.Lock()
+		defer g.mu.Unlock()
+		for _, c := range chunks {
+			b, ok := g.objects["/"+c.ID.String()[:4]+"/"+c.ID.String()+".cacnk"]
+			if !ok {
+				return "chunk " + c.ID.String() + " is missing from the store"
+			}
+			if d, err := desync.Decompress(nil, b); err != nil || desync.Digest.Sum(d) != c.ID || uint64(len(d)) != c.Size {
+				return "chunk " + c.ID.String() + " in the store is not valid"
+			}
+		}
+		return ""
+	}
+	for _, cmdName := range []string{"make", "chop", "cache", "tar-i"} {
+		// a run without failures tells how many requests there are
+		run := func(failFrom int, n string) (int, string, []desync.IndexChunk, int64) {
+			g.mu.Lock()
+			g.objects = map[string][]byte{}
+			g.mu.Unlock()
+			g.reset(-1, failFrom)
+			newIdx := filepath.Join(work, "new.caibx")
+			os.Remove(newIdx)
+			var args []string
+			switch cmdName {
+			case "make":
+				args = []string{"make", "-n", n, "-s", url, "--error-retry", "0", "-m", "1:2:8", newIdx, blobFile}
+			case "chop":
+				args = []string{"chop", "-n", n, "-s", url, "--error-retry", "0", idxFile, blobFile}
+			case "cache":
+				args = []string{"cache", "-n", n, "-s", srcDir, "-c", url, "--error-retry", "0", idxFile}
+			case "tar-i":
+				args = []string{"tar", "-i", "-n", n, "-s", url, "--error-retry", "0", "-m", "1:2:8", newIdx, filepath.Join(work, "tree")}
+			}
+			r := runCLI(bin, nil, nil, 90*time.Second, args...)
+			chunks := idx.Chunks
+			var length int64 = int64(len(blob))
+			if cmdName == "make" || cmdName == "tar-i" {
+				chunks = nil
+				length = -1
+				if fi, err := os.Open(newIdx); err == nil {
+					if ni, err := desync.IndexFromReader(fi); err == nil {
+						chunks, length = ni.Chunks, ni.Length()
+					}
+					fi.Close()
+				}
+			}
+			g.mu.Lock()
+			reqs := g.requests
+			g.mu.Unlock()
+			_ = reqs
+			return r.exit, r.stderr, chunks, length
+		}
+		exit, stderr, chunks, _ := run(-1, "2")
+		g.mu.Lock()
+		total := g.requests
+		g.mu.Unlock()
+		base := fmt.Sprintf("cli.bulk cmd=%s fail-from=none requests=%d", cmdName, total)
+		rep.Count(base, true, "cli.bulk:"+cmdName)
+		if exit != 0 {
+			monitor("desync "+cmdName+" failed against a healthy store: "+clip(stderr, 200), base)
+			continue
+		}
+		if why := valid(chunks); why != "" || len(chunks) == 0 {
+			monitor("desync "+cmdName+" exited with status 0 but "+why, base)
+		}
+		ks := []int{0, 1, 2, total / 3, total / 2, total - 3, total - 2, total - 1}
+		if cfg.Tier == "thorough" {
+			ks = nil
+			for k := 0; k < total; k++ {
+				ks = append(ks, k)
+			}
+		}
+		for _, k := range ks {
+			if k < 0 || k >= total {
+				continue
+			}
+			n := []string{"1", "3"}[rng.Intn(2)]
+			exit, _, chunks, length := run(k, n)
+			caseLine := fmt.Sprintf("cli.bulk cmd=%s n=%s fail-from-request=%d of=%d", cmdName, n, k, total)
+			rep.Count(caseLine, true, "cli.bulk:"+cmdName, fmt.Sprintf("cli-exit0:%v", exit == 0))
+			if exit != 0 {
+				continue
+			}
+			if chunks == nil {
+				monitor("desync "+cmdName+" exited with status 0 without a readable index", caseLine)
+			} else if why := valid(chunks); why != "" {
+				monitor("desync "+cmdName+" exited with status 0 although the store failed from request "+fmt.Sprint(k)+" on: "+why, caseLine)
+			} else if cmdName == "make" && length != int64(len(blob)) {
+				monitor("desync make exited with status 0 with an index that does not cover its input", caseLine)
+			}
+		}
+	}
 }
